@@ -455,7 +455,7 @@ func approxRate(v float64) string {
 }
 
 func torrentFile(w io.Writer, hash hash.Hash, path path.Path, length int64, available int) {
-	p := pathUrl(path)
+	p := html.EscapeString(pathUrl(path))
 	fmt.Fprintf(w,
 		"<tr><td><a href=\"/%v/%v\">%v</a></td>"+
 			"<td>%v</td><td>%v</td></tr>\n",
@@ -473,7 +473,7 @@ func torrentDir(w io.Writer, hash hash.Hash, pth path.Path, lastdir path.Path) {
 	}
 	for i := len(dir); i < len(pth); i++ {
 		dir = append(dir, pth[i])
-		p := pathUrl(dir)
+		p := html.EscapeString(pathUrl(dir))
 		fmt.Fprintf(w,
 			"<tr><td><a href=\"/%v/%v/\">%v/</a></td><td>"+
 				"(<a href=\"/%v/%v/?playlist\">playlist</a>)"+
